@@ -127,7 +127,7 @@ func runDo(d *DoComb, sc doScenario) (viol []string, incon string) {
 		if p != "" {
 			return []string{"panic: deriveDo panicked: " + p}, ""
 		}
-	case <-time.After(15 * time.Second):
+	case <-time.After(10 * time.Second):
 		a := derivedGoroutines()
 		time.Sleep(300 * time.Millisecond)
 		b := derivedGoroutines()
@@ -223,10 +223,16 @@ func doMain(c Config, emit func(*Rep)) {
 		}
 		r := newRep(id, c.Prop, id)
 		sigs := map[uint64]bool{}
-		nscen := 0
+		nscen, stuck := 0, 0
+	scenarios:
 		for mask := 0; mask < 1<<d.N; mask++ {
 			for _, ord := range perms(d.N) {
 				for rep := 0; rep < reps; rep++ {
+					if stuck >= 3 {
+						// every further scenario would wait for the watchdog again: three witnesses are enough
+						r.Res.Classes["skipped-after-repeated-deadlock"]++
+						break scenarios
+					}
 					sc := doScenario{N: d.N, FailMask: mask, Order: ord, Rendezvous: rep%2 == 1, Procs: []int{1, 2, 4, 16}[(rep/2+mask)%4], Seed: c.Seed*1000003 + int64(mask*131+rep)}
 					Progress(fmt.Sprintf("%s %+v", id, sc))
 					viol, incon := runDo(d, sc)
@@ -241,6 +247,9 @@ func doMain(c Config, emit func(*Rep)) {
 					}
 					if len(viol) > 0 {
 						for _, v := range viol {
+							if strings.HasPrefix(v, "deadlock") {
+								stuck++
+							}
 							r.Fail(strings.SplitN(v, ":", 2)[0], "%s\n scenario: %+v", v, sc)
 						}
 						continue
